@@ -16,6 +16,7 @@ import (
 	"os"
 	"os/exec"
 	"path/filepath"
+	"runtime/debug"
 	"sort"
 	"strconv"
 	"strings"
@@ -282,6 +283,9 @@ func Unreachable(why string) { panic("zzvrt.Unreachable: " + why) }
 
 // RunList executes the replays listed in $ZZ_LIST (lines: idx|Func|drawsfile|outdir).
 func RunList(hs map[string]func()) {
+	// unbounded recursion of the code under test must end the replay in seconds, not after the
+	// runtime's default 1 GB of stack (minutes): "fatal error: stack overflow" is what the driver reads
+	debug.SetMaxStack(64 << 20)
 	b, err := os.ReadFile(os.Getenv("ZZ_LIST"))
 	if err != nil {
 		fmt.Fprintf(out, "ZZERROR %v\n", err)
